@@ -30,6 +30,13 @@ func genOptions(t *rapid.T) *Options {
 
 func genCase(t *rapid.T, withInvalid bool) *Case {
 	c := &Case{Init: *genOptions(t)}
+	if rapid.IntRange(0, 2).Draw(t, "withcfg") == 0 {
+		c.MinSize = rapid.IntRange(0, 3).Draw(t, "minSize")
+		c.MaxSize = rapid.SampledFrom([]int{0, 0, 4}).Draw(t, "maxSize")
+		if c.MaxSize != 0 && c.MaxSize < c.MinSize {
+			c.MaxSize = c.MinSize
+		}
+	}
 	for i := range EPNames {
 		if rapid.IntRange(0, 3).Draw(t, "startDown") == 0 {
 			c.StartDown = append(c.StartDown, i)
@@ -111,6 +118,48 @@ func runProp(t *testing.T, prop string, nontriv func(map[string]int) bool) {
 func TestC15(t *testing.T) {
 	runProp(t, "C15", func(l map[string]int) bool {
 		return l["several-multiendpoints"] > 0 && l["pool-kept"] > 0 && l["pool-removed"] > 0 && l["fault-moves-routing"] > 0
+	})
+}
+
+// TestC17GME: construction only, with a drawn channel-pool minSize; the pools open max(1,minSize) transport connections.
+func TestC17GME(t *testing.T) {
+	props := map[string]bool{"C17": true}
+	st := hx.For("C17")
+	one := func(c *Case) *Fail {
+		r := Run(c, props)
+		if r.Fail != nil {
+			st.Failed()
+			c.Failure, c.Property = r.Fail, "C17"
+			hx.WriteReplay("C17", c)
+			return r.Fail
+		}
+		st.Case(1, r.Labels, r.Labels["pool-transport-connections-checked"] > 0 && c.MinSize != 1, c)
+		return nil
+	}
+	if p := hx.ReplayIn(); p != "" {
+		var c Case
+		if err := hx.Load(p, &c); err != nil {
+			t.Fatal(err)
+		}
+		c.Failure = nil
+		if f := one(&c); f != nil {
+			t.Fatalf("replay: %v", f)
+		}
+		return
+	}
+	rapid.Check(t, func(rt *rapid.T) {
+		c := &Case{Init: *genOptions(rt), MinSize: rapid.IntRange(0, 3).Draw(rt, "minSize"), MaxSize: rapid.SampledFrom([]int{0, 0, 3, 4}).Draw(rt, "maxSize")}
+		if c.MaxSize != 0 && c.MaxSize < c.MinSize {
+			c.MaxSize = c.MinSize
+		}
+		for i := range EPNames {
+			if rapid.IntRange(0, 5).Draw(rt, "startDown") == 0 {
+				c.StartDown = append(c.StartDown, i)
+			}
+		}
+		if f := one(c); f != nil {
+			rt.Fatalf("%v", f)
+		}
 	})
 }
 
